@@ -814,6 +814,13 @@ Rock::Rebuild::addSlotToEntry(const sfileno fileno, const SlotId slotId, const D
             return;
         }
 
+        // an all-ones size is our "no such size" marker (see the assertions
+        // below); a db cell or swap metadata carrying it is corrupted
+        if (header.entrySize == static_cast<uint64_t>(-1) || anchor.basics.swap_file_sz == static_cast<uint64_t>(-1)) {
+            freeBadEntry(fileno, "invalid size");
+            return;
+        }
+
         // set total entry size and/or check it for consistency
         if (const uint64_t totalSize = header.entrySize) {
             assert(totalSize != static_cast<uint64_t>(-1));
